@@ -130,7 +130,7 @@ def plan(tier):
         for g in ({"indent_style": "smart_tabs", "indent_size": 2}, {"indent_size": 4}):
             add(f, kind="option", rule="global", options=g)
     for f in var_files:
-        for vk in ("comment0", "dedent", "squeeze", "dedent_squeeze", "case", "pragma0", "compoff0"):
+        for vk in ("comment0", "dedent", "squeeze", "dedent_squeeze", "case", "pragma0", "compoff0", "prep0"):
             add(f, kind="variant", variant=vk)
     # minimised corpus of inputs that failed before runs first (kept under /verif/corpus_min)
     cm = os.path.join(vlib.VERIF, "corpus_min")
@@ -197,6 +197,26 @@ def make_variant(lines, kind, r):
                     res.append("-- pragma keep%d" % (n % 7))
                 elif k < 0.35:
                     res.append("      -- synthesis attr%d" % (n % 5))
+            res.append(line)
+        return res
+    if kind == "prep0":
+        # preprocessor lines (docs: lines starting with '#') between lines, some followed by a blank line
+        res, skip, off = [], False, False
+        for n, line in enumerate(lines):
+            if "vhdl_comp_off" in line:
+                off = True
+            opens, closes = line.count("/*"), line.count("*/")
+            plain = not skip and not off and opens == 0 and closes == 0 and not line.lstrip().startswith("#") and "vsg_" not in line and "synthesis" not in line and "pragma" not in line
+            if opens > closes:
+                skip = True
+            elif closes > opens:
+                skip = False
+            if off and "vhdl_comp_on" in line:
+                off = False
+            if plain and not skip and line.strip() and r.random() < 0.2:
+                res.append(r.choice(["#if SIM%d" % n, "#endif", "#include \"defs%d.vh\"" % n, "  #define X%d" % n]))
+                if r.random() < 0.5:
+                    res.append("")
             res.append(line)
         return res
     if kind == "compoff0":
